@@ -189,6 +189,15 @@ func forwards(chain []string, code uint16, up bool) bool {
 	return false
 }
 
+func clientSent(opts []dns.EDNS0, code uint16) bool {
+	for _, o := range opts {
+		if o.Option() == code {
+			return true
+		}
+	}
+	return false
+}
+
 func judge(c Case, o obs) verdict {
 	Q := new(dns.Msg)
 	if err := Q.Unpack(o.Query); err != nil {
@@ -266,6 +275,11 @@ func judge(c Case, o obs) verdict {
 				uo := hpipe.MkOption(name, true)
 				if ro.Option() == uo.Option() && bytes.Equal(optData(ro), optData(uo)) {
 					ufwd = true
+				}
+				if ro.Option() == dns.EDNS0SUBNET && ro.Option() == uo.Option() && bytes.Equal(optData(ro), optData(uo)) && !clientSent(clientOptions, dns.EDNS0SUBNET) {
+					// ecs_handler(forward) forwards the CLIENT's subnet option; a client that sent none has nothing
+					// forwarded for it, so the upstream's subnet echo (of a preset / derived address) is not forwarded explicitly
+					return verdict{Kind: kind, Clause: "reply-leak-ecs-not-requested", Desc: "the upstream's client-subnet option reached a client that did not send one"}
 				}
 				if ro.Option() == uo.Option() && bytes.Equal(optData(ro), optData(uo)) && !forwards(c.effective(), ro.Option(), false) {
 					return verdict{Kind: kind, Clause: "reply-leak-" + optName(ro.Option()), Desc: fmt.Sprintf("the upstream's %s option (code %d) reached the client although no plugin of the chain forwards it", optName(ro.Option()), ro.Option())}
